@@ -69,7 +69,11 @@ func init() {
 	Inputs["elev"] = feed(1700000000,
 		alert("R25N#EL728", stop("x")), alert("A27S#EL123", stop("x")), alert("R25S#EL728", stop("x")),
 		alert("E01N#EL728", stop("x")), alert("L03N#EL9", stop("x")), alert("A27N#EL123", stop("x")), alert("lmm:alert:77", stop("S1")))
+	// a mixed message: the elevator alerts come after a trip update and a vehicle position
 	Inputs["elev3"] = feed(1700000000,
+		&gtfsrt.FeedEntity{Id: sp("tu0"), TripUpdate: &gtfsrt.TripUpdate{Trip: &gtfsrt.TripDescriptor{TripId: sp("t0")},
+			StopTimeUpdate: []*gtfsrt.TripUpdate_StopTimeUpdate{{StopId: sp("S0")}}}},
+		&gtfsrt.FeedEntity{Id: sp("vp0"), Vehicle: &gtfsrt.VehiclePosition{Vehicle: &gtfsrt.VehicleDescriptor{Id: sp("V0")}}},
 		alert("R25N#EL728", stop("x")), alert("A27S#EL123", stop("x")), alert("R25S#EL728", stop("x")), alert("lmm:alert:77", stop("S1")))
 	vp := func(id, label, plate string, trip string) *gtfsrt.FeedEntity {
 		v := &gtfsrt.VehiclePosition{Vehicle: &gtfsrt.VehicleDescriptor{}, Timestamp: u64(1700000100)}
@@ -120,7 +124,14 @@ func init() {
 			StopTimeUpdate: []*gtfsrt.TripUpdate_StopTimeUpdate{{StopId: sp("M18S"), Departure: &gtfsrt.TripUpdate_StopTimeEvent{Time: i64(1700000500)}}}}},
 		&gtfsrt.FeedEntity{Id: sp("3"), TripUpdate: &gtfsrt.TripUpdate{Trip: nyctTD("010000_M..N", false, ""),
 			StopTimeUpdate: []*gtfsrt.TripUpdate_StopTimeUpdate{{StopId: sp("M12S"), Departure: &gtfsrt.TripUpdate_StopTimeEvent{Time: i64(1699999000)}}}}},
-		&gtfsrt.FeedEntity{Id: sp("4"), Vehicle: &gtfsrt.VehiclePosition{Trip: nyctTD("064650_M..S", true, "0M 1234")}})
+		&gtfsrt.FeedEntity{Id: sp("4"), Vehicle: &gtfsrt.VehiclePosition{Trip: nyctTD("064650_M..S", true, "0M 1234")}},
+		// assigned trips without a train id (a rarely taken branch), one of them with a plain vehicle descriptor
+		&gtfsrt.FeedEntity{Id: sp("5"), TripUpdate: &gtfsrt.TripUpdate{Trip: nyctTD("071000_M..N", true, ""),
+			StopTimeUpdate: []*gtfsrt.TripUpdate_StopTimeUpdate{{StopId: sp("M16N"), Departure: &gtfsrt.TripUpdate_StopTimeEvent{Time: i64(1700000600)}}}}},
+		&gtfsrt.FeedEntity{Id: sp("6"), TripUpdate: &gtfsrt.TripUpdate{Trip: nyctTD("072000_M..S", true, ""), Vehicle: &gtfsrt.VehicleDescriptor{Id: sp("plain-veh")},
+			StopTimeUpdate: []*gtfsrt.TripUpdate_StopTimeUpdate{{StopId: sp("M16S"), Departure: &gtfsrt.TripUpdate_StopTimeEvent{Time: i64(1700000700)}}}}},
+		&gtfsrt.FeedEntity{Id: sp("7"), TripUpdate: &gtfsrt.TripUpdate{Trip: nyctTD("073000_M..S", true, "0M 0730"), Vehicle: &gtfsrt.VehicleDescriptor{Id: sp("plain-veh-2")},
+			StopTimeUpdate: []*gtfsrt.TripUpdate_StopTimeUpdate{{StopId: sp("M16S"), Departure: &gtfsrt.TripUpdate_StopTimeEvent{Time: i64(1700000800)}}}}})
 	Inputs["plain"] = feed(1700000000,
 		&gtfsrt.FeedEntity{Id: sp("1"), TripUpdate: &gtfsrt.TripUpdate{Trip: &gtfsrt.TripDescriptor{TripId: sp("t1"), RouteId: sp("R1")}, Vehicle: &gtfsrt.VehicleDescriptor{Id: sp("V1")},
 			StopTimeUpdate: []*gtfsrt.TripUpdate_StopTimeUpdate{{StopId: sp("S1"), StopSequence: u32(4)}}}},
